@@ -26,7 +26,9 @@ on the inherited object), forkrogue (child forked from a live participant after 
 lock object: `rogue` on the inherited object), holdfork + forkchild/forkchild2 (a process takes
 the lock and forks WHILE HOLDING it; the child — another live pid with a copy of the parent's object,
 locked == True — calls `unlock()`, whose exception is not judged, only its effect on the link, and
-optionally competes afterwards, while the parent keeps holding and later releases).  Initial states: no lock / stale lock of
+optionally competes afterwards, while the parent keeps holding and later releases), reborn /
+rebornretry (pid REUSE: a process born only after the initial stale link of dead pid 999 was broken
+gets pid 999, now alive, and runs once / retry next to long-lived `twice`/`retry` participants).  Initial states: no lock / stale lock of
 a dead pid / lock held by a live non-participant.
 
 Oracle: (1) the number of live processes between a True return of `lock()` and the completion of
@@ -68,13 +70,13 @@ RULE = ("case = (configuration [1..3 processes, thorough also 4; program per pro
         "for the first 4000 states of each configuration; the 4-process configurations are thorough only.")
 ASSUMPTIONS = [
     "trusted base: the in-memory link table implements symlink/readlink/remove/kill(pid,0) with POSIX atomicity and errnos",
-    "processes interleave only at the lock module's filesystem primitives (symlink, readlink, rmlink, kill); pids are not reused",
+    "processes interleave only at the lock module's filesystem primitives (symlink, readlink, rmlink, kill); pid reuse only in the dedicated configurations (the dead owner's pid is recycled once)",
     "bounded: <= 3 processes (4 in the thorough tier), <= 2 lock cycles per process; liveness is only checked as 'somebody acquires in every complete schedule' and 'a lone process acquires a stale lock in one call'",
 ]
 SHARDS = {"quick": 4, "thorough": 16}
 FLOORS = {"states": 2000, "schedules_completed": 200, "acquisitions": 1000, "holder_unlocks": 500, "stale_breaks": 100,
           "configs": 20, "exclusion_checks": 1000, "single_process_checks": 3,
-          "forks_while_holding": 100, "inherited_unlock_calls": 100}
+          "forks_while_holding": 100, "inherited_unlock_calls": 100, "pid_reuse_configurations": 6, "pid_reuse_births": 20}
 READY = True
 
 PIDS = (101, 102, 103, 104)
@@ -223,6 +225,7 @@ class World:
             self.alive.add(FOREIGN)
         self.curpid = list(PIDS[:n])  # what os.getpid() answers for each process right now (fork changes it)
         self.holders = set()
+        self.stale_broken = False  # the initial stale link of pid DEAD has been removed (pid DEAD may be reused)
         self.forked = {}           # parent process -> attributes of its lock object at the moment it forked
         self.flock = None          # process holding the breaker flock
         self.victims = {}          # proc -> trace index: live holders whose link a stale-breaker removed
@@ -245,6 +248,7 @@ class World:
         w.curpid = list(self.curpid)
         w.holders = set(self.holders)
         w.forked = dict(self.forked)
+        w.stale_broken = self.stale_broken
         w.flock = self.flock
         w.victims = dict(self.victims)
         w.acquired_ever = list(self.acquired_ever)
@@ -343,6 +347,8 @@ class World:
                 err = errno.ENOENT
             else:
                 del self.table[args[0]]
+                if before == str(DEAD) and DEAD not in self.alive:
+                    self.stale_broken = True
                 self._note_removal(i, rec, before)
         elif op == "kill":
             if args[0] not in self.alive:
@@ -352,6 +358,10 @@ class World:
             self.holders.discard(i)
             if self.flock == i:
                 self.flock = None
+        elif op == "await-pid-reuse":
+            res = self.stale_broken
+            if res:
+                self.alive.add(DEAD)  # the OS hands the dead owner's pid to this new-born process
         elif op == "fork":
             self.forked[i] = args[0]
         elif op == "await-fork":
@@ -374,15 +384,27 @@ class World:
         if q not in self.alive or q == PIDS[i]:
             return
         rec["removed_link_of_live_pid"] = q
-        if self.api[i] != "lock" or q not in PIDS:
+        if self.api[i] != "lock":
             return
         mine = [x for x in self.trace[:-1] if x.get("proc") == i and "op" in x]
         if len(mine) < 2 or mine[-1]["op"] != "kill" or mine[-1]["result"] != "ESRCH" or mine[-2]["op"] != "readlink":
             return
         read = mine[-2]["result"]
-        if read == before or mine[-1]["args"][0] != int(read) or int(read) in self.alive:
-            return  # it removed the very link it had examined: not this mechanism
-        v = PIDS.index(q)
+        if mine[-1]["args"][0] != int(read):
+            return
+        # The remover examined pid D = int(read) and kill(D) said ESRCH IN THIS CALL, yet the link it
+        # removes now belongs to a live process: either another pid (classic), or the same number D
+        # recycled for a new-born process in between (ABA).  A remover that never got ESRCH for the
+        # pid in this call (e.g. trusting a remembered verdict) does NOT match.
+        if read == before and int(read) != DEAD:
+            return
+        if q in PIDS:
+            v = PIDS.index(q)
+        else:
+            born = [j for j in range(self.n) if self.cfg["programs"][j] in ("reborn", "rebornretry") and j in self.holders]
+            if q != DEAD or not born:
+                return
+            v = born[0]
         if v in self.holders:
             rec["stale_break_removed_live_holders_lock"] = True
             self.victims[v] = rec["step"]
@@ -421,6 +443,8 @@ class World:
     def runnable(self):
         return [i for i in range(self.n) if self.status[i] == "parked"
                 and not (self.pending[i] == ("flock", ("ex",)) and self.flock not in (None, i))
+                and not (self.pending[i][0] == "await-pid-reuse" and not self.stale_broken
+                         and any(self.status[j] != "done" for j in range(self.n) if j != i and self.cfg["programs"][j] not in ("reborn", "rebornretry")))
                 and not (self.pending[i][0] == "await-fork" and self.pending[i][1][0] not in self.forked
                          and self.status[self.pending[i][1][0]] != "done")]
 
@@ -431,7 +455,7 @@ class World:
         self._run(i, 1)
 
     def state(self):
-        return (self.table.get(NAME), self.flock, tuple(sorted(self.forked)), tuple(sorted(self.alive)), tuple(sorted(self.holders)), tuple(self.local),
+        return (self.table.get(NAME), self.flock, self.stale_broken, tuple(sorted(self.forked)), tuple(sorted(self.alive)), tuple(sorted(self.holders)), tuple(self.local),
                 tuple(self.acquired_ever), tuple(sorted(self.victims)))
 
     # ---- known-finding classifier ----------------------------------------------------------------------
@@ -582,7 +606,28 @@ def p_forkchild2(w, i):
     _forkchild(w, i, True)
 
 
-PROGRAMS = {"holdfork": p_holdfork, "forkchild": p_forkchild, "forkchild2": p_forkchild2, "daemon": p_daemon, "forkrogue": p_forkrogue, "once": p_once, "retry": p_retry, "twice": p_twice, "die": p_die, "rogue": p_rogue}
+def _reborn(w, i, attempts):
+    """A process born late that is given the RECYCLED pid of the dead owner of the initial stale
+    lock — only after that stale link was broken (else it is never born)."""
+    if not w.seam("await-pid-reuse", ()):
+        return
+    w.curpid[i] = DEAD
+    l = w.FilesystemLock(NAME)
+    for attempt in range(attempts):
+        w.curpid[i] = DEAD
+        if _cycle(w, i, l):
+            break
+
+
+def p_reborn(w, i):
+    _reborn(w, i, 1)
+
+
+def p_rebornretry(w, i):
+    _reborn(w, i, 2)
+
+
+PROGRAMS = {"reborn": p_reborn, "rebornretry": p_rebornretry, "holdfork": p_holdfork, "forkchild": p_forkchild, "forkchild2": p_forkchild2, "daemon": p_daemon, "forkrogue": p_forkrogue, "once": p_once, "retry": p_retry, "twice": p_twice, "die": p_die, "rogue": p_rogue}
 
 
 # ---- exploration -----------------------------------------------------------------------------------
@@ -602,6 +647,8 @@ def report(ctx, w, mark):
             ctx.count("deaths_while_holding")
         elif e.get("op") == "fork":
             ctx.count("forks_while_holding")
+        elif e.get("op") == "await-pid-reuse" and e.get("result") is True:
+            ctx.count("pid_reuse_births")
         elif ev in ("inherited-unlock-refused", "inherited-unlock-returned"):
             ctx.count("inherited_unlock_calls")
             ctx.count(ev.replace("-", "_"))
@@ -715,6 +762,10 @@ def configs(tier):
         for p3 in _multisets(pool, 3):
             if any(p in forked for p in p3):
                 out.append({"programs": p3, "initial": initial})
+        if initial == "stale":  # pid reuse: a late-born live process gets the dead owner's pid
+            for rb in ("reborn", "rebornretry"):
+                for rest in (["twice"], ["retry"], ["twice", "once"], ["twice", "twice"], ["twice", "die"], ["twice", rb]):
+                    out.append({"programs": rest + [rb], "initial": initial, "pid_reuse": True})
         # fork AFTER a successful lock(): parent keeps holding, the child uses the inherited object
         for child in ("forkchild", "forkchild2"):
             out.append({"programs": ["holdfork", child], "initial": initial})
@@ -745,6 +796,8 @@ def run(ctx):
             if not ctx.owns(rank):
                 continue
             ctx.count("configs")
+            if cfg.get("pid_reuse"):
+                ctx.count("pid_reuse_configurations")
             ctx.count("configs_%d_processes" % len(cfg["programs"]))
             ctx.seen("initial", cfg["initial"])
             ctx.seen("programs", "+".join(cfg["programs"]))
